@@ -35,9 +35,9 @@ def plan(tier):
     return {
         "level": "fault_enumeration",
         "shards": 16,
-        "budget_s": 45 if q else 700,
+        "budget_s": 45 if q else 500,
         "timeout_s": 420 if q else 2000,
-        "min_nontrivial": 100 if q else 2000,
+        "min_nontrivial": 50 if q else 1000,
         "required_counters": ["oracle_exact_counts", "oracle_necessary_condition", "jobs_checked"],
         "rule": "case = (shape, fault set, seed); single faults over every (job, phase, soft|own, count 1..3) of shapes with "
                 "parallel branches (scatter 3/5, diamond, scatter-diamond), pipelines and loops, multi-fault subsets, and "
@@ -159,7 +159,7 @@ def run_shard(sh: Shard) -> None:
     for i, case in enumerate(cases):
         if not sh.mine(i):
             continue
-        if (time.time() - t_start > sh.plan["budget_s"]) or sh.time_left() < -60:
+        if (time.time() - t_start > sh.plan["budget_s"]) or sh.time_left() < -150:
             break
         run_case(sh, case)
         done += 1
